@@ -147,22 +147,61 @@ theorem ids_never_reused {w : World} (h : Reach w) :
 
 /-! ### global centre -/
 
-/-- The global centre lists centre `c` under name `e` exactly when that list's Global flag is set; a live
-global subscription keeps the centre registered; a registered centre has at least one listener of that name
-(the last `Unsubscribe`, or `Clear`, deregisters). -/
+/-- For every (name, centre) pair on which nobody called the global centre's own Subscribe/Unsubscribe directly:
+the global centre lists the centre under the name exactly when that list's Global flag is set; a live global
+subscription keeps the centre registered; a registered centre has at least one listener of that name (the last
+`Unsubscribe`, or `Clear`, deregisters). -/
 theorem global_registration_tracks_listeners {w : World} (h : Reach w) :
-    (∀ c e, (e, c) ∈ w.greg ↔ (c, e) ∈ w.gflag) ∧
-    (∀ l ∈ w.subs, l.glob = true → (l.e, l.c) ∈ w.greg) ∧
-    (∀ c e, (e, c) ∈ w.greg → ∃ l ∈ w.subs, l.c = c ∧ l.e = e) := by
+    (∀ c e, (e, c) ∉ w.direct → ((e, c) ∈ w.greg ↔ (c, e) ∈ w.gflag)) ∧
+    (∀ l ∈ w.subs, l.glob = true → (l.e, l.c) ∉ w.direct → (l.e, l.c) ∈ w.greg) ∧
+    (∀ c e, (e, c) ∉ w.direct → (e, c) ∈ w.greg → ∃ l ∈ w.subs, l.c = c ∧ l.e = e) := by
   have hr := reach_reg h
-  exact ⟨hr.iff, fun l hl hg => (hr.iff l.c l.e).mpr (hr.glob l hl hg),
-         fun c e hm => hr.nonempty c e ((hr.iff c e).mp hm)⟩
+  exact ⟨hr.iff, fun l hl hg hd => (hr.iff l.c l.e hd).mpr (hr.glob l hl hg),
+         fun c e hd hm => hr.nonempty c e ((hr.iff c e hd).mp hm)⟩
+
+theorem doGsub_greg (w : World) (e c : Nat) (add : Bool) (ct : CAttr) (hc : w.cs[c]? = some ct) (hl : ct.light = false) :
+    (doGsub w e c add).greg = (if add then insertP (e, c) w.greg else eraseP (e, c) w.greg) ∧
+    (doGsub w e c add).cs = w.cs := by
+  simp [doGsub, hc, hl, emit]
+
+/-- The global centre's registration is a set of centres per name: a direct `Subscribe(name, centre)` makes the
+centre registered (however often it is repeated), a direct `Unsubscribe` makes it unregistered (whether or not it
+was registered, however often), and neither touches any other (name, centre) pair. -/
+theorem direct_registration_is_a_set (w : World) (e c : Nat) (ct : CAttr) (hc : w.cs[c]? = some ct)
+    (hl : ct.light = false) :
+    (e, c) ∈ (doGsub w e c true).greg ∧ (e, c) ∉ (doGsub w e c false).greg ∧
+    (∀ add x, x ≠ (e, c) → (x ∈ (doGsub w e c add).greg ↔ x ∈ w.greg)) ∧
+    (doGsub (doGsub w e c true) e c true).greg = (doGsub w e c true).greg ∧
+    (doGsub (doGsub w e c false) e c false).greg = (doGsub w e c false).greg := by
+  have h1 := fun add => doGsub_greg w e c add ct hc hl
+  have h2 := fun add add' => doGsub_greg (doGsub w e c add) e c add' ct (by rw [(h1 add).2]; exact hc) hl
+  refine ⟨?_, ?_, ?_, ?_, ?_⟩
+  · rw [(h1 true).1]; simp [mem_insertP]
+  · rw [(h1 false).1]; simp [mem_eraseP]
+  · intro add x hx
+    rw [(h1 add).1]
+    cases add <;> simp [mem_insertP, mem_eraseP, hx]
+  · rw [(h2 true true).1, (h1 true).1]
+    simp [insertP_idem]
+  · rw [(h2 false false).1, (h1 false).1]
+    simp [eraseP_idem]
+
+/-- A global publication appends exactly one event to the queue of every centre registered for the name —
+through `GSubscribe` or through a direct `Subscribe` on the global centre — unless that queue already holds 999
+events, and to no other centre; nothing else about any centre changes.  (No counter is consulted: a stray or
+duplicate direct `Unsubscribe` earlier cannot make a registered centre miss the event.) -/
+theorem global_once_per_registered_centre (w : World) (e : Nat) (a : List Nat) (c : Nat) (ct : CAttr)
+    (hc : w.cs[c]? = some ct) :
+    (doGpub w e a).cs[c]? = some (if (e, c) ∈ w.greg ∧ ct.queue.length < queueCap then
+      { ct with queue := ct.queue ++ [(e, a)] } else ct) := by
+  simp [doGpub, emit, enqAll_get, hc]
 
 /-- A global publication appends exactly one event to the queue of every centre that has a live global
-subscription to the name, unless that queue already holds 999 events; a centre without any listener of
-that name receives nothing; nothing else about any centre changes. -/
+subscription to the name (and whose registration nobody removed by hand), unless that queue already holds 999
+events; a centre without any listener of that name (and not registered by hand) receives nothing; nothing else
+about any centre changes. -/
 theorem global_once_per_subscribed_centre {w : World} (h : Reach w) (e : Nat) (a : List Nat) (c : Nat) (ct : CAttr)
-    (hc : w.cs[c]? = some ct) :
+    (hc : w.cs[c]? = some ct) (hd : (e, c) ∉ w.direct) :
     ((∃ l ∈ w.subs, l.c = c ∧ l.e = e ∧ l.glob = true) →
       (doGpub w e a).cs[c]? = some (if ct.queue.length < queueCap then { ct with queue := ct.queue ++ [(e, a)] } else ct)) ∧
     ((∀ l ∈ w.subs, ¬(l.c = c ∧ l.e = e)) → (doGpub w e a).cs[c]? = some ct) ∧
@@ -175,13 +214,13 @@ theorem global_once_per_subscribed_centre {w : World} (h : Reach w) (e : Nat) (a
   refine ⟨?_, ?_, ?_⟩
   · rintro ⟨l, hl, rfl, rfl, hg⟩
     have : w.greg.contains (l.e, l.c) = true := by
-      simpa using (hr.iff l.c l.e).mpr (hr.glob l hl hg)
+      simpa using (hr.iff l.c l.e hd).mpr (hr.glob l hl hg)
     rw [hget, this]; simp
   · intro hno
     have : w.greg.contains (e, c) = false := by
       apply Bool.eq_false_iff.mpr
       intro hcon
-      obtain ⟨l, hl, h1, h2⟩ := hr.nonempty c e ((hr.iff c e).mp (by simpa using hcon))
+      obtain ⟨l, hl, h1, h2⟩ := hr.nonempty c e ((hr.iff c e hd).mp (by simpa using hcon))
       exact hno l hl ⟨h1, h2⟩
     rw [hget, this]; simp
   · rw [hget]
